@@ -291,8 +291,63 @@ func checkRowCacheIndexes(e *Env, rc *cache.RowCache, t *Table, clientIdx []mode
 				return
 			}
 		}
+		// through the first usable single-column client index: a search model that
+		// carries this row's values (no uuid, schema index columns blanked so that no
+		// schema index matches) must lead to exactly the rows holding the same value
+		if ci := firstScalarClientIndex(t, clientIdx, mon); ci != "" && len(t.Indexes) > 0 {
+			pr := Row{}
+			for cn, v := range scan[u] {
+				pr[cn] = v
+			}
+			usable := true
+			for k, idx := range t.Indexes {
+				for _, cn := range idx {
+					switch {
+					case !mon[cn]:
+						usable = false
+					case t.Columns[cn].Type.Key.Type == "string":
+						pr[cn] = SetOf(AStr(fmt.Sprintf("\x03none-%d", k)))
+					default:
+						pr[cn] = SetOf(AInt(-8000000 - int64(k)))
+					}
+				}
+			}
+			if usable {
+				got, err := rc.RowsByModels([]model.Model{ModelFromRow(t, reflect.TypeOf(m).Elem(), "", pr)})
+				var want, have []string
+				for v, x := range scan {
+					if x[ci].String() == scan[u][ci].String() {
+						want = append(want, v)
+					}
+				}
+				for v := range got {
+					have = append(have, v)
+				}
+				sort.Strings(want)
+				sort.Strings(have)
+				e.Probes["c05_client_index_lookup"]++
+				if err != nil || strings.Join(want, ",") != strings.Join(have, ",") {
+					e.ViolateK("C05.lookup", "by-client-index", "%s: RowsByModels with the %s value of %s/%s (%s) returned %v (%v); a scan finds %v", who, ci, t.Name, u, scan[u][ci], have, err, want)
+					return
+				}
+			}
+		}
 		e.Probes["c05_lookup_checked"]++
 	}
+}
+
+// firstScalarClientIndex returns the column of the first client index if it is
+// a single scalar column that is monitored.
+func firstScalarClientIndex(t *Table, clientIdx []model.ClientIndex, mon map[string]bool) string {
+	if len(clientIdx) == 0 || len(clientIdx[0].Columns) != 1 || clientIdx[0].Columns[0].Key != nil {
+		return ""
+	}
+	cn := clientIdx[0].Columns[0].Column
+	c := t.Columns[cn]
+	if c == nil || !c.Type.IsScalar() || !mon[cn] {
+		return ""
+	}
+	return cn
 }
 
 // checkCacheIndexes checks every table of a client's cache.
@@ -486,6 +541,56 @@ func (b *bareCache) apply(e *Env, before, after DBState) {
 				return
 			}
 			e.Probes["c05_direct_calls"]++
+		}
+		// checked calls that must be refused: a new row (or an update of an existing
+		// one) that duplicates the LAST schema index of another row and nothing else.
+		// A refused call must leave no trace in any index (compared right below).
+		for _, tn := range e.Sch.TableNames {
+			t := e.Sch.Tables[tn]
+			us := SortedKeys(after[tn])
+			if len(t.Indexes) < 2 || len(us) == 0 || b.rng.Intn(3) != 0 {
+				continue
+			}
+			victim := after[tn][us[b.rng.Intn(len(us))]]
+			probe := Row{}
+			for cn, v := range victim {
+				probe[cn] = v
+			}
+			last := t.Indexes[len(t.Indexes)-1]
+			for k, idx := range t.Indexes[:len(t.Indexes)-1] {
+				for _, cn := range idx {
+					if t.Columns[cn].Type.Key.Type == "string" {
+						probe[cn] = SetOf(AStr(fmt.Sprintf("\x02refused-%d", k)))
+					} else {
+						probe[cn] = SetOf(AInt(-7000000 - int64(k)))
+					}
+				}
+			}
+			_ = last
+			rc := b.tc.Table(tn)
+			ghost := "00000000-dead-4bee-8000-0000000000aa"
+			err := rc.Create(ghost, ModelFromRow(t, e.Types[tn], ghost, probe), true)
+			e.Probes["c05_refused_direct_call"]++
+			if err == nil {
+				e.ViolateK("C05.direct-call", "checked-create-accepted", "a checked Create of a row that duplicates index %v of another row of %s was accepted", last, tn)
+				return
+			}
+			if len(us) > 1 {
+				other := us[b.rng.Intn(len(us))]
+				if !reflect.DeepEqual(after[tn][other], victim) {
+					p2 := Row{}
+					for cn, v := range after[tn][other] {
+						p2[cn] = v
+					}
+					for _, cn := range last {
+						p2[cn] = victim[cn]
+					}
+					if _, err := rc.Update(other, ModelFromRow(t, e.Types[tn], other, p2), true); err == nil {
+						e.ViolateK("C05.direct-call", "checked-update-accepted", "a checked Update that gives row %s the values of index %v of another row of %s was accepted", other, last, tn)
+						return
+					}
+				}
+			}
 		}
 		cidx := b.tc.DatabaseModel().Client()
 		for _, tn := range e.Sch.TableNames {
